@@ -423,12 +423,12 @@ def scen_three_roots(ch, params, out):
 
 def parts(tier):
     q = tier == "quick"
-    return [CH("lookup", "vflib.props.c16:scen_lookup", {"maxlen": 4 if q else 6}, shards=1, timeout=170 if q else 300, path_timeout=60, mode="CH-P"),
-            CH("assembly", "vflib.props.c16:scen_assembly", {}, shards=10, timeout=170 if q else 300, path_timeout=30),
-            CH("options", "vflib.props.c16:scen_options", {}, shards=13, timeout=170 if q else 300, path_timeout=30),
-            CH("ini_input", "vflib.props.c16:scen_ini", {}, shards=4, timeout=170 if q else 300, path_timeout=30),
-            CH("path_patterns_on_a_real_directory", "vflib.props.c16:scen_patterns", {}, shards=15, timeout=170 if q else 300, path_timeout=30),
-            CH("three_roots_merge", "vflib.props.c16:scen_three_roots", {}, shards=6, timeout=170 if q else 300, path_timeout=30)]
+    return [CH("lookup", "vflib.props.c16:scen_lookup", {"maxlen": 4 if q else 6}, shards=1, timeout=170 if q else 200, path_timeout=60, mode="CH-P"),
+            CH("assembly", "vflib.props.c16:scen_assembly", {}, shards=10, timeout=170 if q else 200, path_timeout=30),
+            CH("options", "vflib.props.c16:scen_options", {}, shards=13, timeout=170 if q else 200, path_timeout=30),
+            CH("ini_input", "vflib.props.c16:scen_ini", {}, shards=4, timeout=170 if q else 200, path_timeout=30),
+            CH("path_patterns_on_a_real_directory", "vflib.props.c16:scen_patterns", {}, shards=15, timeout=170 if q else 200, path_timeout=30),
+            CH("three_roots_merge", "vflib.props.c16:scen_three_roots", {}, shards=6, timeout=170 if q else 200, path_timeout=30)]
 
 
 META = {
